@@ -25,6 +25,7 @@ fn main() {
             if tier != "quick" && tier != "thorough" {
                 usage()
             } else {
+                sim::watchdog::start(&args[2], tier, std::time::Duration::from_secs(30), None);
                 checks::run(&args[2], tier)
             }
         }
